@@ -22,7 +22,8 @@ var _ tree = (*treeSimple)(nil)
 
 func newTreeSimple(cfg *config) tree {
 	growerFactory := func(lastNodeFormat, intermedialNodeFormat branchFormat, dryrun bool, encode encode) growerSimple {
-		if encode != encodeDefault {
+		// the encoders need neither branches nor paths. a dry run prints the tree, whatever the encode option says.
+		if encode != encodeDefault && !dryrun {
 			return newNopGrowerSimple()
 		}
 		return newGrowerSimple(lastNodeFormat, intermedialNodeFormat, dryrun)
